@@ -410,6 +410,53 @@ def rule_fixpoints(ctx, rep, config="c-lib"):
                     rep.violation("R10", key, "a loop of %s is left by a test that does not depend on the loop's own element (nothing in the condition changes from one "
                                   "iteration to the next): the loop examines the wrong element -- e.g. the enclosing loop's -- instead of each of its own" % fn,
                                   where=t.where(), witness=[t.where()])
+    # accessibility reaches every symbol of a right-hand side: the loop that propagates it is not left early
+    f = p.fn("set_empty_access_derives")
+    acc = [s_ for s_ in f.all_insts() if s_.op == "store" and (resolve_addr(f, s_.ops[1]).last_field() or "").endswith("access_p") and const_int(s_.ops[0]) == 1]
+    done_acc = False
+    for L in sorted(f.loops(), key=lambda l_: len(l_["body"])):
+        if not any(s_.block.name in L["body"] for s_ in acc):
+            continue
+        if done_acc:
+            break
+        done_acc = True
+        n += 1
+        early = [(bn, s_) for bn in L["body"] if bn != L["header"] for s_ in f.bmap[bn].succs if s_ not in L["body"]]
+        if not early:
+            rep.ok("R10", "set_empty_access_derives/rhs-scan-total", sample={"loop": f.bmap[L["header"]].term.where()})
+        else:
+            t_ = f.bmap[early[0][0]].term
+            rep.violation("R10", "set_empty_access_derives/rhs-scan-total", "the loop over a rule's right-hand side, which also marks its symbols accessible, can be left early: "
+                          "symbols behind the exit never become accessible through this rule (a wrong YAEP_UNACCESSIBLE_NONTERM in strict mode)", where=t_.where(), witness=[t_.where()])
+    if not done_acc:
+        raise AnalysisBroken("R10: the accessibility propagation loop was not found")
+    # the two scans of set_loop_p skip their own position by index (a symbol may occur twice in a rule)
+    f = p.fn("set_loop_p")
+    nskip = 0
+    for L in f.loops():
+        hdr = f.bmap[L["header"]]
+        own = [i for i in hdr.insts if i.op == "phi"]
+        brk = [bn for bn in L["body"] if bn != L["header"] and any(s_ not in L["body"] for s_ in f.bmap[bn].succs)]
+        loads_empty = any(i.op == "load" and (resolve_addr(f, i.ops[0]).last_field() or "").endswith("empty_p") for bn in L["body"] for i in f.bmap[bn].insts)
+        inner = not any(L2 is not L and L2["header"] in L["body"] for L2 in f.loops())
+        if not (own and brk and loads_empty and inner):
+            continue
+        nskip += 1
+        n += 1
+        key = "set_loop_p/skip-own-position#%d" % nskip
+        okk = False
+        for bn in L["body"]:
+            for c_ in f.bmap[bn].insts:
+                if c_.op == "icmp" and c_.d["pred"] in ("eq", "ne"):
+                    a_, b_ = f.inst(strip_int_casts(f, c_.ops[0])), f.inst(strip_int_casts(f, c_.ops[1]))
+                    if a_ is not None and b_ is not None and a_.op == "phi" and b_.op == "phi" and (a_ in own) != (b_ in own):
+                        okk = True
+        if okk:
+            rep.ok("R10", key, nontrivial=True)
+        else:
+            rep.violation("R10", key, "a scan of set_loop_p over the siblings of a right-hand side symbol does not skip its own position by comparing the two indices: "
+                          "comparing symbols skips every occurrence of the symbol (`A : A A' is then taken for a unit cycle)", where=hdr.term.where(), witness=[hdr.term.where()])
+    rep.floor("R10", "sibling scans of set_loop_p", nskip, 2)
     # every update of a set inside a fixpoint loop reports into the change flag
     nupd = 0
     for fn in FUNCS:
